@@ -117,6 +117,12 @@ class CR:
     def __pos__(a): return a
     def __abs__(a): return CR(abs(a.v), Node('abs', a.n))
 
+    def __and__(a, mask):
+        # integer masking with 2^n - 1 == remainder modulo 2^n (used on integer-valued proxies only)
+        if isinstance(mask, int) and mask >= 0 and (mask + 1) & mask == 0 and not isinstance(a.v, float) and a.v.denominator == 1:
+            return CR(Fraction(int(a.v) & mask), Node('imod', a.n, mask + 1))
+        return NotImplemented
+
     def __pow__(a, e):
         if isinstance(e, int) and not isinstance(e, bool):
             return CR(a.v ** e, Node('pow', a.n, e) if e != 1 else a.n)
